@@ -33,3 +33,67 @@ PROPS["C13"] = dict(
              tiers={"thorough": {"params": {"hMaxPeers": 6}, "bounds": {"view": "0..6 entries"}}}),
     ],
 )
+
+_RBC_ENV = COMMON_ENV + [
+    "transport contract: `from` is never the receiver itself and is a session participant (the participant filter is checked separately at the threshold layer)",
+    "two honest receivers (ids 1, 2); every other participant is Byzantine and may send any broadcast-class message, any acknowledgement (also about itself) and any point-to-point message",
+    "honest parties send one payload per round, the same to everyone; digests are 8-byte strings with one symbolic byte (the package only needs len >= 8)",
+]
+
+
+def _rbc_bmc(count, quick, thorough):
+    runs = []
+    for (n, k, sh, depth) in quick:
+        runs.append(dict(name="bmc N=%d k=%d" % (n, k), dir="rbc", files=["rbc_bmc.go.txt"], entry="verifH_C02_bmc", params={"hN": n, "hK": k}, shards=sh, shard_depth=depth,
+                         count=count, expect_covers=["both-delivered", "equivocation-detected", "broadcast-delivered"] if k >= 3 else [],
+                         bounds={"N": n, "events": k, "rounds": "all uint8", "digest byte": "all", "receivers": "2 honest + %d Byzantine" % (n - 2)}, only_tiers=["quick"]))
+    for (n, k, sh, depth) in thorough:
+        runs.append(dict(name="bmc N=%d k=%d" % (n, k), dir="rbc", files=["rbc_bmc.go.txt"], entry="verifH_C02_bmc", params={"hN": n, "hK": k}, shards=sh, shard_depth=depth,
+                         count=count, expect_covers=["both-delivered", "equivocation-detected", "broadcast-delivered"] if k >= 3 else [],
+                         bounds={"N": n, "events": k, "rounds": "all uint8", "digest byte": "all", "receivers": "2 honest + %d Byzantine" % (n - 2)}, only_tiers=["thorough"]))
+    return runs
+
+
+PROPS["C02"] = dict(
+    level="model_checking",
+    explanation="S2 bounded run on the real rbc.Receiver objects of two honest parties; the solver chooses and fills in every event (Byzantine broadcasts/acks, honest acks in any order, re-sends)",
+    assumptions=_RBC_ENV,
+    outside=["more than k events", "N > 5", "Byzantine behaviour of the two observed receivers"],
+    runs=_rbc_bmc(["assert:C02-"], quick=[(3, 4, 16, 5), (4, 3, 4, 4)], thorough=[(3, 5, 16, 6), (4, 4, 16, 5), (5, 3, 4, 4)]),
+)
+_RBC_S3_PAIR = dict(name="S3 two-receiver invariant, one arbitrary step", dir="rbc", files=["rbc_pair.go.txt"], entry="verifH_C02_pair_step", s3=True, count=["assert:C02-", "assert:C03-"],
+                    expect_covers=["end"], bounds={"N": 3, "digests": "{0,1}", "rounds": 1, "pre-state": "arbitrary pair of receiver states satisfying invariant I(1)-(7), 38 symbolic flags", "event": "any one"})
+_RBC_S3_ONE = dict(name="S3 single-receiver invariant I1-I5, one arbitrary step", dir="rbc", files=["rbc_s3.go.txt"], entry="verifH_C03_step", s3=True, count=["assert:C03-"],
+                   expect_covers=["end"], bounds={"N": 3, "senders": "{0,2}", "digests": "{0,1}", "pre-state": "arbitrary receiver state satisfying I1-I5 (29 symbolic flags)", "event": "any one"})
+PROPS["C02"]["runs"].append(_RBC_S3_PAIR)
+
+PROPS["C03"] = dict(
+    level="model_checking",
+    explanation="same bounded runs as C02 with integrity monitors on the hand-over callback (authentic object, participant, at most once, non-empty, point-to-point as received)",
+    assumptions=_RBC_ENV,
+    outside=["more than k events", "N > 5"],
+    runs=_rbc_bmc(["assert:C03-", "panic:"], quick=[(3, 4, 16, 5), (4, 3, 4, 4)], thorough=[(3, 5, 16, 6), (4, 4, 16, 5), (5, 3, 4, 4)]),
+)
+PROPS["C03"]["runs"].append(_RBC_S3_ONE)
+
+
+def _rbc_sys(n, s, r, shards=1, depth=4, tiers=("quick", "thorough")):
+    return dict(name="system run N=%d senders=%d rounds=%d" % (n, s, r), dir="rbc", files=["rbc_sys.go.txt"], entry="verifH_C04_sys", params={"hN": n, "hS": s, "hR": r},
+                shards=shards, shard_depth=depth, count=["assert:C04-", "panic:", "deadlock:"], expect_covers=["all-delivered"], only_tiers=list(tiers),
+                bounds={"N": n, "broadcasting parties": s, "rounds": r, "point-to-point messages": 1, "delivery orders": "all (symbolic choice of the next in-flight message until none is left)"})
+
+
+PROPS["C04"] = dict(
+    level="model_checking",
+    explanation="S3: the receiver state after any received subset is the canonical state of that subset (one arbitrary step from an arbitrary canonical state) => order independence for histories of any length; "
+                "S2: complete system runs of N real receivers wired by their real ack callbacks, every delivery order",
+    assumptions=COMMON_ENV + ["all participants honest: one payload per sender and round, acknowledgements only as emitted by the real BroadcastAck callback, every message delivered exactly once by the transport",
+                              "acknowledgements addressed to the original sender are delivered immediately (they are ignored; asserted)"],
+    outside=["N > 4 in system runs (S3 step: N = 3)", "more than 2 senders / 2 rounds", "the threshold-layer wrappers (covered by the C02/C10 threshold harnesses)"],
+    runs=[
+        dict(name="S3 order-independence step", dir="rbc", files=["rbc_c04.go.txt"], entry="verifH_C04_step", count=["assert:C04-", "panic:"], expect_covers=["end"], s3=True,
+             bounds={"N": 3, "receiver": 1, "messages due": 6, "pre-state": "canonical state of an arbitrary received subset (6 symbolic flags)", "event": "any message not yet received"}),
+        _rbc_sys(2, 2, 2), _rbc_sys(3, 1, 1), _rbc_sys(3, 2, 1, shards=16, depth=3),
+        _rbc_sys(3, 1, 2, shards=16, depth=3, tiers=("thorough",)), _rbc_sys(4, 1, 1, shards=16, depth=3, tiers=("thorough",)),
+    ],
+)
